@@ -16,7 +16,7 @@ sys.path.insert(0, ROOT)
 from tools import vrun
 from tools.vrun import Break
 
-UNITS = ['sim', 'lex', 'upd', 'ptab', 'qbk', 'arith', 'semk', 'ovl', 'scope', 'sigs', 'objm', 'trk', 'cli']          # extended as units are built (see units/*.py)
+UNITS = ['sim', 'lex', 'upd', 'ptab', 'qbk', 'arith', 'semk', 'ovl', 'scope', 'sigs', 'objm', 'trk', 'cli', 'qev', 'cyc']          # extended as units are built (see units/*.py)
 NCPU = os.cpu_count() or 8
 
 
@@ -147,7 +147,10 @@ def main():
                         r['failures'] = r2['failures']
                 return r
             except Break as e:
-                return dict(harness=h['name'], fn=h['fn'], status='break', results=[], failures=[], wall_s=0, solver_s=0,
+                # a sidecar clause names a local / member the lowered text no longer has: a binding break (the
+                # function was rewritten), handled like one - bounded run and oracle replay, never a verdict by itself
+                st = 'binding-break' if re.search(r'failed to find symbol|has no member named|undeclared', str(e)) else 'break'
+                return dict(harness=h['name'], fn=h['fn'], status=st, results=[], failures=[], wall_s=0, solver_s=0,
                             mode='proof', msg=str(e), guards=[], cmd='', replace=h.get('replace', []), flags=h.get('flags', []))
 
         def go_bounded(h):
